@@ -950,6 +950,126 @@ theorem beamDensity_nonpos (r : List ℝ) (current r_e : ℝ) (hI : 0 ≤ curren
     rw [e]; linarith
   · simp
 
+/-- entrywise comparison of two lists from an indexed comparison -/
+theorem zip_le_of_getElem (a b : List ℝ) (hl : a.length = b.length)
+    (h : ∀ i (h1 : i < a.length) (h2 : i < b.length), b[i] ≤ a[i]) : ∀ p ∈ List.zip a b, p.2 ≤ p.1 := by
+  intro p hp
+  obtain ⟨i, hi, rfl⟩ := List.mem_iff_getElem.mp hp
+  have hi' : i < a.length ∧ i < b.length := by simpa [List.length_zip, hl] using hi
+  simp only [List.getElem_zip]
+  exact h i hi'.1 hi'.2
+
+theorem colSum_zero (n : ℕ) (rows : List (List ℝ)) (h : ∀ row ∈ rows, ∀ v ∈ row, v = 0) :
+    ∀ v ∈ colSum n rows, v = 0 := by
+  intro v hv
+  have h1 := colSum_nonneg n rows (fun row hr w hw => (h row hr w hw).ge) v hv
+  have h2 := colSum_nonpos n rows (fun row hr w hw => (h row hr w hw).le) v hv
+  linarith
+
+theorem zeroLast_zero : ∀ (l : List ℝ), (∀ v ∈ l, v = 0) → ∀ v ∈ zeroLast l, v = 0 := by
+  intro l h v hv
+  have h1 := zeroLast_nonneg l (fun w hw => (h w hw).ge) v hv
+  have h2 := zeroLast_nonpos l (fun w hw => (h w hw).le) v hv
+  linarith
+
+/-- **the ion-free beam potential lies between the potentials of the same beam at the nominal and at
+the space-charge-reduced electron velocity** (discrete form): let `φ` be an exact solution of the
+ion-free e-beam problem with `E + φ > 0` everywhere, `φ_lo` the finite-difference Poisson potential
+of the beam with the electron velocity frozen at the lowest energy `E + p_min` (`p_min ≤ φ`), and
+`φ_hi` the one at the nominal energy `E`. Then `φ_lo ≤ φ ≤ φ_hi` at every node. (The analytic
+uniform-beam potentials of the property are the continuum limits of `φ_lo`, `φ_hi`, C12.) -/
+theorem beam_potential_between (I : BPIn ℝ) (phi philo phihi : List ℝ) (pm : ℝ)
+    (hv : I.variant = .ebeam) (hsp : ∀ s ∈ I.sp, s.nl = 0)
+    (hg : GridMP I.r) (hldu : I.ldu = fdNonuniform I.r)
+    (hphi : phi.length = I.r.length) (hlo_len : philo.length = I.r.length) (hhi_len : phihi.length = I.r.length)
+    (hc : I.cden.length = I.r.length) (hcd : ∀ c ∈ I.cden, c ≤ 0)
+    (hfix : mulL 0 I.ldu phi = (step I phi).b)
+    (hw : phi.getLast? = some 0) (hwlo : philo.getLast? = some 0) (hwhi : phihi.getLast? = some 0)
+    (hpm : ∀ p ∈ phi, pm ≤ p) (hpos : 0 < I.e_kin + pm)
+    (hlo : mulL 0 I.ldu philo = I.cden.map fun c => -c / Real.sqrt (2 * Const.Q_E * (I.e_kin + pm) / Const.M_E) / Const.EPS_0)
+    (hhi : mulL 0 I.ldu phihi = I.cden.map fun c => -c / Real.sqrt (2 * Const.Q_E * I.e_kin / Const.M_E) / Const.EPS_0) :
+    (∀ p ∈ List.zip philo phi, p.1 ≤ p.2) ∧ (∀ p ∈ List.zip phi phihi, p.1 ≤ p.2) := by
+  have hle0 := (beam_potential_monotone I phi hv hsp hg hldu hphi hc hcd hfix hw).2
+  obtain ⟨variant, r, ldu, b0, cden, e_kin, sp⟩ := I
+  simp only at hv hsp hg hldu hphi hc hcd hfix hlo hhi hpos hlo_len hhi_len
+  subst hv; subst hldu
+  simp only [step] at hfix
+  set shape : List (List ℝ) := sp.map fun s => phi.map fun p => Transc.exp (-s.q * (p - minL phi) / s.kT) with hshape
+  set i_sr : List ℝ := shape.map fun sh => trapz (List.zipWith (· * ·) r sh) r with hisr
+  set nax : List ℝ := zipWith3 (fun (s : Species ℝ) (sh : List ℝ) (isr : ℝ) => s.nl / lit 2 / Const.PI / isr * sh.headD (lit 0)) sp shape i_sr with hnax
+  have hnax0 : ∀ v ∈ nax, v = 0 := by
+    intro v hv'
+    obtain ⟨s, hs, _, _, _, _, rfl⟩ := mem_zipWith3 _ _ _ _ v hv'
+    simp [hsp s hs]
+  set bion := colSum phi.length (zipWith3 (fun (s : Species ℝ) (sh : List ℝ) nx =>
+      zeroLast (sh.map fun v => -nx * s.q * v * Const.Q_E / Const.EPS_0)) sp shape nax) with hbion
+  have hion : ∀ v ∈ bion, v = 0 := by
+    apply colSum_zero
+    intro row hrow
+    obtain ⟨s, _, sh, _, nx, hnx, rfl⟩ := mem_zipWith3 _ _ _ _ row hrow
+    apply zeroLast_zero
+    intro v hv'
+    obtain ⟨w, _, rfl⟩ := List.mem_map.mp hv'
+    simp [hnax0 nx hnx]
+  set bxb : List ℝ := List.zipWith (fun c p => -c / Transc.sqrt (lit 2 * Const.Q_E * (e_kin + p) / Const.M_E) / Const.EPS_0) cden phi with hbxb
+  set b := List.zipWith (· + ·) bion bxb with hb
+  have hbl : b.length = r.length := by
+    have := congrArg List.length hfix
+    rw [mulL_length 0 _ phi (by rw [fdNonuniform_length' r hg]; omega)] at this
+    omega
+  have hbxbl : bxb.length = r.length := by simp [hbxb, hc, hphi]
+  have hbionl : r.length ≤ bion.length := by
+    have : b.length = min bion.length bxb.length := by simp [hb]
+    omega
+  have hQM : (0 : ℝ) < 2 * (Const.Q_E : ℝ) / (Const.M_E : ℝ) := by
+    have := Const.Q_E_pos; have := Const.M_E_pos; positivity
+  -- the entries of `b`
+  have hbi : ∀ i (h : i < b.length), ∃ (h1 : i < cden.length) (h2 : i < phi.length),
+      b[i] = -cden[i] / Real.sqrt (2 * Const.Q_E * (e_kin + phi[i]) / Const.M_E) / Const.EPS_0 := by
+    intro i h
+    have h1 : i < cden.length := by omega
+    have h2 : i < phi.length := by omega
+    refine ⟨h1, h2, ?_⟩
+    have hbi0 : bion[i]'(by omega) = 0 := hion _ (List.getElem_mem _)
+    simp only [hb, hbxb, List.getElem_zipWith, hbi0, zero_add, Transc.sqrt_real, lit_real, Nat.cast_ofNat]
+  have hsq : ∀ x y : ℝ, x ≤ y → Real.sqrt (2 * Const.Q_E * x / Const.M_E) ≤ Real.sqrt (2 * Const.Q_E * y / Const.M_E) := by
+    intro x y hxy
+    apply Real.sqrt_le_sqrt
+    have e : ∀ z : ℝ, 2 * Const.Q_E * z / Const.M_E = (2 * Const.Q_E / Const.M_E) * z := fun z => by ring
+    rw [e x, e y]
+    exact mul_le_mul_of_nonneg_left hxy hQM.le
+  have hsqpos : 0 < Real.sqrt (2 * Const.Q_E * (e_kin + pm) / Const.M_E) := by
+    apply Real.sqrt_pos.mpr
+    have e : 2 * Const.Q_E * (e_kin + pm) / Const.M_E = (2 * Const.Q_E / Const.M_E) * (e_kin + pm) := by ring
+    rw [e]; exact mul_pos hQM hpos
+  have heps := Const.EPS_0_pos
+  constructor
+  · -- lower bound: frozen at the lowest energy the charge density is largest in magnitude
+    refine fd_comparison r _ b philo phi hg (by simp [hc]) hbl hlo_len hphi hlo hfix ?_ hwlo hw
+    apply zip_le_of_getElem _ _ (by simp [hc, hbl])
+    intro i h1 h2
+    obtain ⟨hc1, hp1, e⟩ := hbi i h2
+    rw [e, List.getElem_map]
+    have hci := hcd _ (List.getElem_mem hc1)
+    have hpi := hpm _ (List.getElem_mem hp1)
+    have hs := hsq (e_kin + pm) (e_kin + phi[i]) (by linarith)
+    apply div_le_div_of_nonneg_right _ heps.le
+    exact div_le_div_of_nonneg_left (by linarith) hsqpos hs
+  · -- upper bound: at the nominal energy the electrons are fastest
+    refine fd_comparison r b _ phi phihi hg hbl (by simp [hc]) hphi hhi_len hfix hhi ?_ hw hwhi
+    apply zip_le_of_getElem _ _ (by simp [hc, hbl])
+    intro i h1 h2
+    obtain ⟨hc1, hp1, e⟩ := hbi i h1
+    rw [e, List.getElem_map]
+    have hci := hcd _ (List.getElem_mem hc1)
+    have hpi0 := hle0 _ (List.getElem_mem hp1)
+    have hpi := hpm _ (List.getElem_mem hp1)
+    have hs := hsq (e_kin + phi[i]) e_kin (by linarith)
+    have hs0 : 0 < Real.sqrt (2 * Const.Q_E * (e_kin + phi[i]) / Const.M_E) :=
+      lt_of_lt_of_le hsqpos (hsq _ _ (by linarith))
+    apply div_le_div_of_nonneg_right _ heps.le
+    exact div_le_div_of_nonneg_left (by linarith) hs0 hs
+
 /-! ### non-vacuity of the comparison principle -/
 example : GridMP [0, 1, 2] := by simp only [GridMP, StepsOk]; norm_num
 /-- a concrete instance of the hypotheses of `fd_monotone` / `fd_comparison`: on the grid `[0, 1, 2]`
